@@ -57,6 +57,7 @@ static vglobal g_plat;
  * very object handed to the core through these pointers. */
 static uint8_t *g_last_icon;     /* last buffer handed out by get_icon_image */
 static uint8_t *g_last_name;     /* last buffer handed out by get_friendly_name */
+static uint8_t *g_last_hwid_dst; /* last buffer the hardware id was written into */
 
 /* ---- fault schedule + ledger --------------------------------------------- */
 #define V_MAXFAIL 8
@@ -123,7 +124,24 @@ void lltd_port_free(void *ptr) {
 }
 
 void *lltd_port_memset(void *ptr, int value, size_t num) { return memset(ptr, value, num); }
+#ifdef V_MEMCPY_RECORD
+/* Contract model of the port's memcpy for queries whose subject is a copy of symbolic length from a
+ * symbolic offset (large-property payload): the arguments are recorded and checked for validity, the
+ * bytes themselves are not moved under CBMC (copying is the port's contract: dst[0..n) = src[0..n)). */
+static const void *g_mc_src; static void *g_mc_dst; static size_t g_mc_n; static unsigned g_mc_calls;
+void *lltd_port_memcpy(void *d, const void *s, size_t num) {
+#ifdef VERIF_CBMC
+    __CPROVER_assert(__CPROVER_r_ok(s, num), "C01,C08: memcpy source region readable");
+    __CPROVER_assert(__CPROVER_w_ok(d, num), "C01,C08: memcpy destination region writable");
+#else
+    memcpy(d, s, num);
+#endif
+    g_mc_dst = d; g_mc_src = s; g_mc_n = num; g_mc_calls++;
+    return d;
+}
+#else
 void *lltd_port_memcpy(void *d, const void *s, size_t num) { return memcpy(d, s, num); }
+#endif
 int lltd_port_memcmp(const void *a, const void *b, size_t num) { return memcmp(a, b, num); }
 
 void lltd_port_sleep_ms(uint32_t ms) { g_nsleep++; on_sleep(ms); g_nevent++; }
@@ -199,6 +217,7 @@ size_t lltd_port_get_hw_id(void *dst, size_t dst_len) {
     if (n > 64) n = 64;
     if (n > dst_len) n = dst_len;
     if (n > 0) memcpy(dst, g_plat.hwid, n);
+    g_last_hwid_dst = (uint8_t *)dst;
     return n;
 }
 
